@@ -54,9 +54,20 @@ fn check_values(xs: &[i64], obs: &mut Obs, cross: bool) -> Verdict {
 /// Other parts of the crate use the VLQ reader on the same thread: every fourth text is parsed right
 /// after a map was decoded (and one was refused) there - the answers must not depend on that.
 fn neighbours(t: &str) {
-    if t.len() % 4 == 0 {
-        let _ = sourcemap::decode_slice(br#"{"version":3,"sources":["a.js"],"names":["n"],"mappings":"AAAA,IAAEA;AACA"}"#);
-        let _ = sourcemap::decode_slice(br#"{"version":3,"sources":["a.js"],"names":[],"mappings":"AAAA,IAAg"}"#);
+    match t.len() % 8 {
+        // right after a successful decode
+        0 => {
+            let _ = sourcemap::decode_slice(br#"{"version":3,"sources":["a.js"],"names":["n"],"mappings":"AAAA,IAAEA;AACA"}"#);
+        }
+        // right after a refused one
+        4 => {
+            let _ = sourcemap::decode_slice(br#"{"version":3,"sources":["a.js"],"names":[],"mappings":"AAAA,IAAg"}"#);
+        }
+        // after a Hermes map (its function maps go through the same reader)
+        6 => {
+            let _ = sourcemap::decode_slice(br#"{"version":3,"sources":["a.js"],"names":[],"mappings":"AAAA","x_facebook_sources":[[{"names":["f"],"mappings":"AAA,UC"}]]}"#);
+        }
+        _ => {}
     }
 }
 
